@@ -193,8 +193,13 @@ func Font(r *rand.Rand, o Opts) (*sfnt.Font, *Info) {
 				continue
 			}
 			code := 0x20 + r.IntN(0xE0)
-			if r.IntN(2) == 0 {
+			switch r.IntN(3) {
+			case 0:
 				code = 0x80 + r.IntN(0x80)
+			case 1:
+				// the letters the reader looks at itself, with the Mac Roman
+				// codes of the fi and fl ligatures
+				code = []int{'f', 'i', 'l', 0xDE, 0xDF, 'H', 'x', ' ', 'f', 'i'}[r.IntN(10)]
 			}
 			if _, used := macCodes[code]; !used && code != 0x7F {
 				macCodes[code] = glyph.ID(gid)
@@ -250,7 +255,15 @@ func Font(r *rand.Rand, o Opts) (*sfnt.Font, *Info) {
 				default:
 					c = rune(0x41 + gid%200)
 				}
-				if c >= 0xd800 && c < 0xe000 || c == 0xffff {
+				if !o.Plain && r.IntN(40) == 0 {
+					// the ends of the code space
+					if cmKind == "12" || cmKind == "both" {
+						c = []rune{0xFFFF, 0x10FFFF, 0xE0000, 0x2FFFF, 0x30000}[r.IntN(5)]
+					} else {
+						c = 0xFFFF
+					}
+				}
+				if c >= 0xd800 && c < 0xe000 || c == 0xffff && o.Plain {
 					continue
 				}
 				if (cmKind == "4" || cmKind == "legacy") && c > 0xffff {
@@ -592,8 +605,15 @@ func glyfOutlines(r *rand.Rand, o Opts, n int, widths []int, info *Info) *glyf.O
 			first := true
 			for j := 0; j < nc; j++ {
 				tgt := r.IntN(i)
+				emptyComp := false
 				if out.Glyphs[tgt] == nil {
-					tgt = simple[r.IntN(len(simple))]
+					if tgt > 0 && j > 0 && r.IntN(3) == 0 {
+						// a component without outline (e.g. a space glyph)
+						emptyComp = true
+						info.Classes = append(info.Classes, "glyf:empty-component")
+					} else {
+						tgt = simple[r.IntN(len(simple))]
+					}
 				}
 				dx, dy := int16(r.IntN(401)-200), int16(r.IntN(401)-200)
 				flags := glyf.FlagArgsAreXYValues
@@ -611,6 +631,9 @@ func glyfOutlines(r *rand.Rand, o Opts, n int, widths []int, info *Info) *glyf.O
 					flags |= glyf.FlagMoreComponents
 				}
 				comps = append(comps, glyf.GlyphComponent{Flags: flags, GlyphIndex: glyph.ID(tgt), Data: data})
+				if emptyComp {
+					continue
+				}
 				b := boxes[tgt]
 				b.LLx += funit.Int16(dx)
 				b.URx += funit.Int16(dx)
@@ -642,6 +665,34 @@ func glyfOutlines(r *rand.Rand, o Opts, n int, widths []int, info *Info) *glyf.O
 			out.Glyphs[i] = g
 			boxes[i] = g.Rect16
 			simple = append(simple, i)
+		}
+	}
+	if !o.NoComposite && n > 3 && r.IntN(3) == 0 {
+		// renumber the glyphs (glyph 0 stays): composites now also refer to
+		// glyphs with higher ids than their own
+		perm := r.Perm(n - 1)
+		pi := func(i int) int {
+			if i == 0 {
+				return 0
+			}
+			return perm[i-1] + 1
+		}
+		glyphs := make(glyf.Glyphs, n)
+		forward := false
+		for i, g := range out.Glyphs {
+			if g != nil {
+				if cg, ok := g.Data.(glyf.CompositeGlyph); ok {
+					for j := range cg.Components {
+						cg.Components[j].GlyphIndex = glyph.ID(pi(int(cg.Components[j].GlyphIndex)))
+						forward = forward || int(cg.Components[j].GlyphIndex) > pi(i)
+					}
+				}
+			}
+			glyphs[pi(i)] = g
+		}
+		out.Glyphs = glyphs
+		if forward {
+			info.Classes = append(info.Classes, "glyf:forward-component-reference")
 		}
 	}
 	out.Widths = make([]funit.Int16, n)
@@ -751,6 +802,43 @@ func CFFGlyph(r *rand.Rand, name string, width float64, intOnly bool) *cff.Glyph
 	if r.IntN(4) == 0 {
 		a := float64(r.IntN(200))
 		g.VStem = []float64{a, a + float64(10+r.IntN(80))}
+	}
+	if r.IntN(8) == 0 {
+		// several stems in both directions, replaced and activated by hint
+		// and counter masks at the start and inside the path
+		stems := func() []float64 {
+			var out []float64
+			a := float64(r.IntN(100) - 50)
+			for k := r.IntN(7); k > 0; k-- {
+				w := float64(10 + r.IntN(80))
+				out = append(out, a, a+w)
+				a += w + float64(5+r.IntN(60))
+			}
+			return out
+		}
+		g.HStem, g.VStem = stems(), stems()
+		if ns := (len(g.HStem) + len(g.VStem)) / 2; ns > 0 {
+			nb := (ns + 7) / 8
+			mask := func(op cff.GlyphOpType) cff.GlyphOp {
+				args := make([]float64, nb)
+				for i := range args {
+					args[i] = float64(r.IntN(256))
+				}
+				return cff.GlyphOp{Op: op, Args: args}
+			}
+			var cmds []cff.GlyphOp
+			if r.IntN(3) == 0 {
+				cmds = append(cmds, mask(cff.OpCntrMask))
+			}
+			cmds = append(cmds, mask(cff.OpHintMask))
+			for _, c := range g.Cmds {
+				cmds = append(cmds, c)
+				if r.IntN(5) == 0 {
+					cmds = append(cmds, mask(cff.OpHintMask))
+				}
+			}
+			g.Cmds = cmds
+		}
 	}
 	return g
 }
